@@ -337,8 +337,46 @@ def plan_C11(chk, tier, seed):
             "completely on both sides")
 
 
+def sweep_enumstr(chk, cfg, log2, run):
+    """Whole-space-style sweep of the string look-ups against the listed spellings TLC emitted."""
+    binp = build(cfg)
+    vecs = os.path.join(WORK, "tlc", "C18.MC_Enums.MC_Cases.%s.vec" % cfg)
+    out = os.path.join(WORK, "tlc", run + ".sweep.out")
+    r = sh([binp, "sweep", "enumstr", vecs, str(log2), "16", out])
+    if r.returncode != 0:
+        raise ToolError("enumstr sweep failed: rc=%s %s" % (r.returncode, r.stdout[-2000:]))
+    recs = [json.loads(l) for l in open(out, errors="replace")]
+    summary = [x for x in recs if x.get("summary")][0]
+    mism = [x for x in recs if not x.get("summary")]
+    log("sweep %s[%s]: %d strings judged against %d listed spellings, %d mismatches" % (
+        run, cfg, summary["checked"], summary["table"], len(mism)))
+    if summary["table"] < 10:
+        raise ToolError("enumstr sweep: only %d listed spellings found in %s" % (summary["table"], vecs))
+    chk.extra["swept_inputs"] = chk.extra.get("swept_inputs", 0) + summary["checked"]
+    chk.replayed += summary["checked"]
+    if mism:
+        # the deviating strings become ordinary vectors, judged by the trace specification
+        vp = os.path.join(WORK, "tlc", run + ".sweep.vec")
+        with open(vp, "w") as f:
+            for x in mism[:100]:
+                f.write(json.dumps({"op": "enum_str", "tag": "enum-str-sweep", "table": x["table"], "s": x["s"], "props": ["C18"]}) + "\n")
+        s2, recs2 = replay(cfg, vp, run + ".sweep", full=True)
+        for i, x in enumerate(recs2):
+            x["line"] = i
+        verdicts, stats = validate(cfg, recs2, run + ".sweep.adj")
+        for st in stats:
+            chk.add_tlc(st)
+        for x in recs2:
+            if chk.prop in verdicts[x["line"]]["violated"]:
+                x["cfg"] = cfg
+                chk.violation(x, "an unlisted string is accepted by the %s look-up (or a listed one is not): %s" % (
+                    (x.get("in") or x.get("vector") or {}).get("table"), bytes((x.get("in") or x.get("vector") or {}).get("s", [])).decode("utf-8", "replace")))
+
+
 def plan_C18(chk, tier, seed):
     simple(chk, "MC_Enums", ["none", "all"], ["C18"], ["TypeOK", "IdentifierTables", "Emit"])
+    # every short string and 2^k strings of every listed length through the string look-ups
+    sweep_enumstr(chk, "all", 26 if tier == "quick" else 33, "C18.enumstr")
     # the status numbers the crate itself EMITS: Success in front of every payload, Other alone,
     # on fresh buffers, on buffers with previous contents and in two-exchange histories
     reused_buffers(chk, "C18")
